@@ -63,6 +63,8 @@ def check(ctx):
             if e['tag'] != 'membership' or e['where'] is None or e['where'].qualname not in (fd.qualname, ff.qualname):
                 continue
             item, cont = e['item'], e['container']
+            if cont is not None and cont.ty == 'None':
+                continue  # this configuration passes None for the collection: the test is not reached with it
             ik = 'symbol' if (item.ty == 'str') else ('species' if item.ty == 'Species' else None)
             ck = elem_kind(cont)
             key = (id(e['node']), ck)
@@ -158,8 +160,9 @@ def check(ctx):
         gs = all_geos(arg)
         ok_kind = gs == {('FDIFF', 'MI')}
         ok_axis = rem == {'atom'}
+        axis_known = bool(rem) and not any(r.startswith('ax') or r in ('?', '*all*') for r in rem)
         ok_fn = e['fn'] in ('mean', 'average')
-        ctx.ob('R3', fd, e['node'], True if (ok_kind and ok_axis and ok_fn) else (None if not gs else False),
+        ctx.ob('R3', fd, e['node'], True if (ok_kind and ok_axis and ok_fn) else (None if (not gs or not axis_known) else False),
                'mean of the minimum-image displacements over the atom axis' if (ok_kind and ok_axis and ok_fn) else
                (f'drift reduces over {sorted(rem)} instead of the atom axis' if not ok_axis else
                 f'drift is computed from {", ".join(geo_text(g) for g in gs)}' if not ok_kind else f'drift uses {e["fn"]} instead of the mean'))
@@ -170,41 +173,53 @@ def check(ctx):
     # ---- R4
     fa = ctx.fn(f'{TRAJ}.apply_drift_correction')
     ita = ctx.entry(fa.qualname)
-    inits = [e for e in ita.events if e['tag'] == 'traj_init' and 'coords' in e['kwargs'] and fa.qualname in e['ctx']]
+    inside = under(fa.qualname)
+    inits = [e for e in ita.events if e['tag'] == 'traj_init' and 'coords' in e['kwargs'] and inside(e)]
     if not inits:
         ctx.ob('R4', fa, 'constructor', None, 'construction of the corrected trajectory not found')
         return
+    cons = [ce for ce in ita.events if ce['tag'] == 'construct' and ce['cls'] == TRAJ and ce['where'] is not None and inside(ce)]
+    made_in = {ce['where'].qualname for ce in cons}
     # every path returns the newly built trajectory
-    for r_ in ast.walk(fa.node):
+    from .common import walk_no_nested
+    for r_ in walk_no_nested(fa.node):
         if isinstance(r_, ast.Return) and r_.value is not None:
             v_ = ita.value_of(r_.value)
-            fresh_obj = v_ is not None and v_.ty == 'obj' and v_.alloc == fa.qualname and not v_.symbolic
+            fresh_obj = v_ is not None and v_.ty == 'obj' and v_.alloc in made_in and not v_.symbolic
             if not fresh_obj:
-                ctx.ob('R4', fa, r_, False, f'`{norm_text(r_)}` hands back an existing trajectory instead of the corrected one: on this path the '
-                                            f'drift is not removed (and the caller receives an alias of the source)')
+                ctx.ob('R4', fa, r_, False if (v_ is not None and v_.ty == 'obj') else None,
+                       f'`{norm_text(r_)}` hands back an existing trajectory instead of the corrected one: on this path the '
+                       f'drift is not removed (and the caller receives an alias of the source)')
     e = inits[-1]
     kw = dict(e['kwargs'])
-    for ce in ita.events:
-        if ce['tag'] == 'construct' and ce['cls'] == TRAJ and ce['where'] is not None and ce['where'].qualname == fa.qualname:
-            kw.update({k: v for k, v in ce['kwargs'].items() if k != '**'})
-    call = [n for n in ast.walk(fa.node) if isinstance(n, ast.Call) and norm_text(n.func) in ('self.__class__', 'Trajectory', 'type(self)')]
-    node = call[0] if call else fa.node.name
+    for ce in cons:
+        kw.update({k: v for k, v in ce['kwargs'].items() if k != '**'})
+        st_ = ce['kwargs'].get('**')
+        if st_ is not None and st_.kw:
+            for k_, v_ in st_.kw.items():
+                kw.setdefault(k_, v_)
+    want = {'species': ('self.species', 'attr:Trajectory.species'), 'lattice': ('self.get_lattice()', None), 'metadata': ('self.metadata', 'attr:Trajectory.metadata'),
+            'base_positions': ('self.base_positions', 'attr:Trajectory.base_positions'), 'time_step': ('self.time_step', 'attr:Trajectory.time_step')}
+    from .common import parse_sx
     for k in ('species', 'lattice', 'metadata', 'base_positions', 'time_step'):
-        present = k in kw
+        v = kw.get(k)
+        present = v is not None
         src_ok = None
-        if present and call:
-            kv = next((x.value for x in call[0].keywords if x.arg == k), None)
-            want = {'species': 'self.species', 'lattice': 'self.get_lattice()', 'metadata': 'self.metadata',
-                    'base_positions': 'self.base_positions', 'time_step': 'self.time_step'}[k]
-            src_ok = kv is not None and norm_text(kv) == want
+        if present:
+            if v.sx == want[k][0] or (want[k][1] is not None and v.store == want[k][1] and v.view_of is None and v.bin is None):
+                src_ok = True
+            elif v.sx is not None:
+                src_ok = False
         wrong_frame = False
-        if present and call and not src_ok and k == 'base_positions':
-            kv = next((x.value for x in call[0].keywords if x.arg == k), None)
-            if isinstance(kv, ast.Subscript) and norm_text(kv.value) in ('self.positions', 'self.coords'):
+        if present and not src_ok and k == 'base_positions' and v.sx:
+            t_ = parse_sx(v.sx, full=True)
+            if isinstance(t_, ast.Subscript) and norm_text(t_.value) in ('self.positions', 'self.coords'):
                 try:
-                    wrong_frame = ast.literal_eval(kv.slice) != 0
+                    wrong_frame = ast.literal_eval(t_.slice) != 0
                 except Exception:
                     wrong_frame = False
+                if not wrong_frame:
+                    src_ok = None
         if wrong_frame:
             ctx.ob('R4', fa, f'{k}=', False, 'the base positions of the corrected trajectory are not the first frame of the source')
             continue
